@@ -17,8 +17,48 @@ from merge_family import KEY_POOLS, canon, cfg_text
 ABSENT_KEY = "i:987654"
 
 
-def base_steps(beh, rng, keymap):
-    """Translate a TLC behaviour to harness steps (no observations yet)."""
+import struct
+
+
+def _r(x):
+    return "r:%016x" % struct.unpack(">Q", struct.pack(">d", x))[0]
+
+
+# boundary values of every storage class (C08); NaN is excluded: SQLite turns it into NULL before the table sees it
+VALUE_POOL = [
+    "NULL", "i:0", "i:1", "i:-1", "i:9223372036854775807", "i:-9223372036854775808", "i:9007199254740993", "i:255", "i:-256",
+    _r(0.0), _r(-0.0), _r(1.5), _r(-2.25), _r(5e-324), _r(1.7976931348623157e308), _r(float("inf")), _r(float("-inf")),
+    _r(9007199254740992.0), _r(1e15 + 0.3), _r(0.1), _r(1.0), _r(-1.0),
+    "t:", "t:a", "t:\u00e9", "t:\u4e2d\u6587", "t:a'b\"c", "t:line\nbreak\ttab", "t: lead and trail ", "t:" + "long" * 40, "t:0", "t:NULL", "t:1.5",
+    "x:", "x:00", "x:ff00ff", "x:" + "ab" * 100, "x:0000000000", "x:7f80",
+]
+KEY_POOLS_C08 = [
+    ["i:-9223372036854775808", "i:0", "i:9223372036854775807"],
+    [_r(float("-inf")), _r(-0.0), _r(float("inf"))],
+    ["i:-1", _r(0.5), "t:"],
+    ["t:", "t:\u00e9", "x:"],
+    ["x:", "x:00", "x:ff"],
+    [_r(1e300), "t:a'b", "x:00ff"],
+    ["i:9007199254740993", _r(9007199254740994.0), "t:\u4e2d"],
+]
+
+
+def num_id(lit):
+    """identity of a literal AS A KEY: numerically equal INTEGER and REAL literals are the same key"""
+    from fractions import Fraction
+    if lit.startswith("i:"):
+        return ("num", Fraction(int(lit[2:])))
+    if lit.startswith("r:"):
+        x = struct.unpack(">d", struct.pack(">Q", int(lit[2:], 16)))[0]
+        if x != x or x in (float("inf"), float("-inf")):
+            return ("real", lit)
+        return ("num", Fraction(x))
+    return ("lit", lit)
+
+
+def base_steps(beh, rng, keymap, values=None):
+    """Translate a TLC behaviour to harness steps (no observations yet).
+    values: optional function (col, wt) -> typed literal (default: a text token naming column and write time)."""
     steps = []
     nst = 0
     for st in beh:
@@ -27,7 +67,7 @@ def base_steps(beh, rng, keymap):
             steps.append({"op": op, "c": st["c"], "mode": st.get("mode", "rw"), "perm": st.get("perm", 0)})
         elif op == "stmt":
             nst += 1
-            cols = {c: "t:%s%d" % (c, st["wt"]) for c in st["cs"]}
+            cols = {c: (values(c, st["wt"]) if values else "t:%s%d" % (c, st["wt"])) for c in st["cs"]}
             steps.append({"op": "stmt", "c": st["c"], "id": "s%d" % nst, "kind": st["kind"], "key": keymap[st["key"]],
                           "cols": cols, "wt": st["wt"], "intx": st.get("intx", 0)})
         elif op in ("begin", "commit", "rollback"):
@@ -61,14 +101,19 @@ class Inst:
 
 def instrument(prop, beh, idx, rng):
     pool = KEY_POOLS[rng.randrange(len(KEY_POOLS))] if rng.random() < 0.4 else KEY_POOLS[0]
+    values = None
+    if prop == "C08":
+        pool = KEY_POOLS_C08[rng.randrange(len(KEY_POOLS_C08))]
+        salt = rng.randrange(1 << 30)
+        values = lambda c, wt: VALUE_POOL[(hash((c, wt)) ^ salt) % len(VALUE_POOL)]
     keymap = {"k1": pool[0], "k2": pool[1], "k3": pool[2]}
-    steps = base_steps(beh, rng, keymap)
+    steps = base_steps(beh, rng, keymap, values)
     writers = []
     for s in steps:
         if s["op"] == "open" and s["c"] not in writers:
             writers.append(s["c"])
     feats = set()
-    deep = prop in ("C16", "C05", "C11", "C12") and rng.random() < 0.6
+    deep = prop in ("C16", "C05", "C11", "C12", "C08") and rng.random() < 0.6
     epn = rng.choice([2, 3, 4]) if deep else rng.choice([2, 4096, 0])
     cache = rng.choice([0, 0, 8])
     if prop in ("C05", "C11", "C16") and cache > 0 and 0 < epn <= 4 and rng.random() < 0.8:
@@ -86,7 +131,7 @@ def instrument(prop, beh, idx, rng):
     if deep:
         feats.add("multilevel")
         pre = [{"op": "open", "c": "w0", "mode": "rw"},
-               {"op": "prefill", "c": "w0", "n": rng.choice([6, 15, 40]), "base": 1000, "stride": rng.choice([1, 3, 7]), "wt": 0}]
+               {"op": "prefill", "c": "w0", "n": rng.choice([6, 15, 40] if prop != "C08" else [5, 9]), "base": 1000, "stride": rng.choice([1, 3, 7]), "wt": 0}]
     out += pre
     if prop == "C16":
         if pre:
@@ -264,6 +309,34 @@ def instrument(prop, beh, idx, rng):
                 {"op": "rows", "c": w}]
         if len(writers) > 1:
             out += [{"op": "conn_get", "c": writers[1]}]
+    elif prop == "C08":
+        # values of every class in key and non-key position; read back by the writer, after commit, by other processes,
+        # after merges, through named versions, and after a vacuum
+        for s in steps:
+            out.append(s)
+            if s["op"] == "stmt":
+                out.append({"op": "rows", "c": s["c"]})
+                if rng.random() < 0.4:
+                    out.append({"op": "open", "c": fresh(), "mode": "ro", "perm": rng.randrange(6)})
+        w = writers[0]
+        # every pool value once, in both non-key columns and as a key where it can be one
+        vals = list(VALUE_POOL)
+        rng.shuffle(vals)
+        usedk = set(num_id(x) for x in keymap.values())
+        for j, v in enumerate(vals[:10]):
+            out.append({"op": "stmt", "c": w, "id": "v%d" % j, "kind": "ins", "key": "i:%d" % (3000 + j), "cols": {"a": v, "b": vals[-1 - j]}, "wt": 50 + j})
+            # (numerically equal INTEGER/REAL literals are ONE key: use each numeric value once; C07 covers equal keys)
+            if v != "NULL" and num_id(v) not in usedk:
+                usedk.add(num_id(v))
+                out.append({"op": "stmt", "c": w, "id": "k%d" % j, "kind": "ins", "key": v, "cols": {"a": "t:key%d" % j}, "wt": 50 + j})
+        out += [{"op": "rows", "c": w}, {"op": "version", "c": w, "save": "W"}, {"op": "kvdump", "c": fresh(), "only_ref": "W"},
+                {"op": "changes", "c": w, "from": [], "to_ref": "W"}]
+        post += [{"op": "refresh", "c": "z2", "when": 700},
+                 {"op": "stmt", "c": "z2", "id": "d1", "kind": "del", "key": "i:3000", "wt": 80},
+                 {"op": "rows", "c": "z2"}, {"op": "vacuum", "c": "z2", "cutoff": 1000}, {"op": "rows", "c": "z2", "same": "C08"},
+                 {"op": "open", "c": fresh(), "mode": "ro"}]
+        if any(lit == "t:" for st in out for lit in ([st.get("key")] + list(st.get("cols", {}).values()))):
+            feats.add("empty_text")
     elif prop == "C05":
         # observations around transactions
         intx = {}
@@ -359,7 +432,7 @@ def generate(workdir, prop, tier, rng):
                  % (", 2 times, 2 stmts, BEGIN/COMMIT/ROLLBACK" if withtx else ", 3 times, 3 stmts", len(b), d, w))
     states += d
     trans += g
-    add(b, 500 if tier == "quick" else 12000)
+    add(b, (500 if prop != "C08" else 150) if tier == "quick" else 12000)
     if prop == "C15":
         # one writer, every order of 4 write times over 4 statements on one key (repeated / decreasing write times)
         b, d, g, w = vf.gen_behaviours(workdir, "S3db", cfg_text(["w1"], ["k1"], 4, 4, 0, 1), name="gen_single")
@@ -373,7 +446,7 @@ def generate(workdir, prop, tier, rng):
     notes.append("S3db large -simulate (3 writers, 2 keys, 5 times, 5 stmts): %d behaviours, %.0fs" % (len(b), w))
     states += d
     trans += g
-    add(b, 500 if tier == "quick" else 12000)
+    add(b, (500 if prop != "C08" else 150) if tier == "quick" else 12000)
     scen = [instrument(prop, x, i, rng) for i, x in enumerate(behs)]
     if prop == "C15":
         from merge_family import rowapi_scenarios
@@ -385,15 +458,14 @@ def generate(workdir, prop, tier, rng):
     return scen, states, trans, notes
 
 
-LEVEL = {"C05": "model_checking", "C11": "model_checking", "C12": "model_checking", "C13": "model_checking",
+LEVEL = {"C08": "exploration", "C05": "model_checking", "C11": "model_checking", "C12": "model_checking", "C13": "model_checking",
          "C15": "model_checking", "C16": "model_checking"}
 
 
 def run(prop, tier):
     t0 = time.time()
     rng = random.Random(vf.seed() * 7919 + int(prop[1:]))
-    workdir = os.path.join(vf.OUT, prop, tier)
-    os.makedirs(workdir, exist_ok=True)
+    workdir = vf.fresh_workdir(prop, tier)
     binary = vf.build_harness()
     scen, states, trans, notes = generate(workdir, prop, tier, rng)
     vf.log("; ".join(notes))
